@@ -547,10 +547,16 @@ def sym_attr(I, obj, name):
                 raise Unsupported("str.%s on text formatted from symbolic data" % name)
         return SOpaque("attr:%s.%s" % (obj.tag, name), obj)
     if isinstance(obj, SStr):
-        if name == "startswith":
-            return _Method(lambda p, *a: SBool(z3.PrefixOf(z3.StringVal(p), obj.e)) if not a and isinstance(p, str) else _unsup("startswith args"), name)
-        if name == "endswith":
-            return _Method(lambda p, *a: SBool(z3.SuffixOf(z3.StringVal(p), obj.e)) if not a and isinstance(p, str) else _unsup("endswith args"), name)
+        if name in ("startswith", "endswith"):
+            rel = z3.PrefixOf if name == "startswith" else z3.SuffixOf
+
+            def _affix(p, *a):
+                if a or not (isinstance(p, str) or (isinstance(p, tuple) and all(isinstance(q, str) for q in p))):
+                    return _unsup("%s args" % name)
+                ps = (p,) if isinstance(p, str) else p
+                return SBool(z3.Or(*[rel(z3.StringVal(q), obj.e) for q in ps])) if ps else False
+
+            return _Method(_affix, name)
         raise Unsupported("str.%s on symbolic string" % name)
     raise Unsupported("attribute %s of %s" % (name, type(obj).__name__))
 
